@@ -377,3 +377,18 @@ def run(chk):
     chk.extra['shape_time_s'] = round(time.time() - t0, 2)
     chk.guard('C01.B', check_error_shapes, chk, pm)
     chk.guard('C01.S', check_stack_discipline, chk, pm)
+    # the runtime half of "parse_script followed by execute_script": jump-level semantics (C08) and assignment scope / frames (C04)
+    from . import c08, c04
+    for r, d in (('C08.PC', 'shared with C08: program counter discipline'), ('C08.L', 'shared with C08: label lookup'), ('C08.J', 'shared with C08: conditional jump by value_boolean'),
+                 ('C08.R', 'shared with C08: return'), ('C08.X', 'shared with C08: statement dispatch'), ('C04.W', 'shared with C04: assignment scope'), ('C04.F', 'shared with C04: frames'),
+                 ('C04.R', 'shared with C04: function statement'), ('C04.B', 'shared with C04: parameter binding')):
+        chk.rule(r, d)
+    chk.guard('C08.X', c08.check_dispatch, chk)
+    chk.guard('C08.PC', c08.check_counter, chk)
+    chk.guard('C08.L', c08.check_labels, chk)
+    chk.guard('C08.J', c08.check_truthiness, chk)
+    chk.guard('C08.R', c08.check_return_function, chk)
+    chk.guard('C04.W', c04.check_assignment, chk)
+    chk.guard('C04.F', c04.check_frames, chk)
+    chk.guard('C04.R', c04.check_function_statement, chk)
+    chk.guard('C04.B', c04.check_binding, chk)
